@@ -26,7 +26,7 @@ PROPERTIES = ["RedoClearedByDo", "EmptyRefused"]
 def base_constants():
     return {
         "DirNames": {"d", "e"}, "FileNames": {"x"}, "MaxDepth": 2,
-        "MaxDo": 3, "MaxSteps": 4, "Limits": {2, 100},
+        "MaxDo": 3, "MaxSteps": 4, "Limits": {0, 2, 100},
         "InitTreesH": tlc.Sub("MCInitTreesH1"),
         "LeafKinds": {"W", "CF", "CD", "MV"},
         "AllowPairs": False, "AllowSelective": True, "AllowReopen": False, "AllowSetLimit": False,
@@ -44,7 +44,7 @@ def configs(tier):
     c2.update({"LeafKinds": {"W", "CF", "CD", "MV", "RM"}, "AllowPairs": True, "MaxDo": 2, "MaxSteps": 3})
     out.append(("pairs+remove-3calls", c2, "export", None))
     cl = base_constants()
-    cl.update({"AllowSetLimit": True, "AllowSelective": False, "Limits": {1, 2, 100}, "MaxDo": 3, "MaxSteps": 5,
+    cl.update({"AllowSetLimit": True, "AllowSelective": False, "Limits": {0, 1, 2, 100}, "MaxDo": 3, "MaxSteps": 5,
                "LeafKinds": {"W"}})
     out.append(("limit-changes-5calls", cl, "export", None))
     ci = base_constants()
